@@ -163,7 +163,23 @@ func runC13(c *Ctx) {
 			}, nil); !found {
 				if _, found2 := f.PathFromEntryAvoiding(pt, func(n ast.Node) bool {
 					ds, ok := n.(*ast.DeferStmt)
-					return ok && sameCb(ds.Call, "UnlockExecution")
+					if !ok || !sameCb(ds.Call, "UnlockExecution") {
+						return false
+					}
+					// a defer fires when the function that executed it returns: one inside a spliced
+					// helper releases at that helper's return, before an Invoke outside the helper
+					if q, okq := f.PointOf(ds.Call); okq {
+						enclosing := false
+						dreg := f.regionOf[q.B]
+						if dreg == nil {
+							enclosing = true
+						}
+						for rg := f.regionOf[pt.B]; rg != nil && !enclosing; rg = rg.parent {
+							enclosing = rg == dreg
+						}
+						return enclosing
+					}
+					return true
 				}, nil); !found2 {
 					okB = true
 				}
@@ -602,7 +618,9 @@ func checkReactiveRegistration(r *Reporter, p *Prog, pkg, typ string) {
 	}
 	_ = regElem
 	if cbVar == nil || elemVar == nil {
-		r.Fail("reg/hand-off", key, p.posStr(fd.Pos()), "registration must create a callback and push it onto the callback list")
+		// the registration stage has another shape (a helper that also builds the unsubscribe handle, a
+		// package-level function, ...): judge the operation with its helpers in place
+		checkReactiveRegistrationSpliced(r, p, pkg, typ, fd, key, mutexName)
 		return
 	}
 	recvObj := info.Defs[recvIdentOf(regFd)]
@@ -1007,5 +1025,146 @@ func checkOneOrderSection(r *Reporter, p *Prog, pkg string, fd *ast.FuncDecl, he
 		r.Fail(rule, fkey, p.posStr(fd.Pos()), bad[0], bad...)
 	} else {
 		r.Pass(rule, fkey, p.posStr(fd.Pos()), fmt.Sprintf("one exclusive section of %s covers the change and %d notification site(s)", displayPath(order), nInv))
+	}
+}
+
+// checkReactiveRegistrationSpliced: the registration clauses of OnUpdate on the operation with its
+// unexported helpers spliced in, whatever their shape: (hand-off) the new callback is pushed onto the
+// callback list and execution-locked, tagged with the current update id, while the value mutex is held
+// exclusively, and every snapshot call on the reactive value itself lies in that same section;
+// (unsubscribe) the function handed back removes the list element this registration created and marks
+// this callback unsubscribed.
+func checkReactiveRegistrationSpliced(r *Reporter, p *Prog, pkg, typ string, fd *ast.FuncDecl, key, mutexName string) {
+	info := p.Pkg(pkg).TypesInfo
+	f := newFuncCFG(p, info, fd.Body, key+"/registration")
+	self := recvObj(info, fd)
+	lh := f.LocksHeld(LockSet{})
+	heldW := func(pt Point) bool {
+		for k, m := range lh(pt) {
+			if m == ModeW && strings.HasSuffix(k, "."+mutexName) {
+				return true
+			}
+		}
+		return false
+	}
+	var cb, elem types.Object
+	var pushPt Point
+	nPush := 0
+	for _, b := range f.G.Blocks {
+		if !b.Live {
+			continue
+		}
+		for i, nd := range b.Nodes {
+			as, ok := nd.(*ast.AssignStmt)
+			if !ok || len(as.Lhs) != 1 || len(as.Rhs) != 1 {
+				continue
+			}
+			if cl, ok := ast.Unparen(as.Rhs[0]).(*ast.CallExpr); ok && strings.HasSuffix(exprKey(cl.Fun), "Callbacks.PushBack") && len(cl.Args) == 1 {
+				if o := objOfIdent(info, cl.Args[0]); o != nil {
+					cb, elem, pushPt = o, objOfIdent(info, as.Lhs[0]), Point{b, i}
+					nPush++
+				}
+			}
+		}
+	}
+	if nPush != 1 || cb == nil || elem == nil {
+		r.Fail("reg/hand-off", key, p.posStr(fd.Pos()), "registration must create a callback and push it onto the callback list (exactly once)")
+		return
+	}
+	var bad []string
+	if !heldW(pushPt) {
+		bad = append(bad, f.PosOf(pushPt)+": the callback is pushed onto the list outside the value mutex: a writer can change the value and snapshot the callback list between the read of the initial value and the registration")
+	}
+	nLock, nSnapshot := 0, 0
+	for _, b := range f.G.Blocks {
+		if !b.Live {
+			continue
+		}
+		for i, nd := range b.Nodes {
+			pt := Point{b, i}
+			inspectNoLit(nd, func(m ast.Node) bool {
+				cl, ok := m.(*ast.CallExpr)
+				if !ok {
+					return true
+				}
+				if x, isLock := reactiveCalleeIs(info, cl, "LockExecution"); isLock && (objOfIdent(info, x) == cb || f.IsVar(x, pt, cb)) {
+					nLock++
+					if !heldW(pt) {
+						bad = append(bad, f.PosOf(pt)+": the new callback is execution-locked outside the value mutex: a writer that snapshots the callback list in between delivers its update concurrently with (or before) the initial state")
+					}
+					if len(cl.Args) != 1 || !strings.HasSuffix(f.KeyAt(cl.Args[0], pt), ".uniqueUpdateID") {
+						bad = append(bad, f.PosOf(pt)+": the execution lock must be tagged with the current update id")
+					}
+				}
+				// snapshot calls on the reactive value itself
+				if se, isSel := ast.Unparen(cl.Fun).(*ast.SelectorExpr); isSel && self != nil {
+					if sel := info.Selections[se]; sel != nil && sel.Kind() == types.MethodVal {
+						if id, isId := ast.Unparen(se.X).(*ast.Ident); isId && (info.Uses[id] == self || f.IsVar(id, pt, self)) {
+							if fn, _ := sel.Obj().(*types.Func); fn != nil && f.regionByCall(cl) == nil {
+								nSnapshot++
+								if !heldW(pt) {
+									bad = append(bad, fmt.Sprintf("%s: the current state is read with %s outside the value mutex: a writer that completes between this snapshot and the registration is neither part of the initial state nor delivered as an update", f.PosOf(pt), exprKey(cl.Fun)))
+								}
+							}
+						}
+					}
+				}
+				return true
+			})
+		}
+	}
+	if nLock == 0 {
+		bad = append(bad, "LockExecution of the created callback not found")
+	}
+	if len(bad) > 0 {
+		r.Fail("reg/hand-off", key, p.posStr(fd.Pos()), bad[0], bad...)
+	} else {
+		r.Pass("reg/hand-off", key, p.posStr(fd.Pos()), fmt.Sprintf("callback pushed and execution-locked (tagged with the current update id) while the value mutex is held; %d snapshot call(s) on the receiver inside the same section", nSnapshot))
+	}
+	// the unsubscribe function: every value the operation can return
+	okRemove, okMark, nRet := true, true, 0
+	for _, rpt := range f.Find(func(n ast.Node) bool { _, ok := n.(*ast.ReturnStmt); return ok }) {
+		rs := f.nodeAt(rpt).(*ast.ReturnStmt)
+		if len(rs.Results) != 1 {
+			continue
+		}
+		for _, o := range f.Origins(rs.Results[0], rpt) {
+			nRet++
+			cbs := callbacksIn(p, info, o.E)
+			if len(cbs) != 1 {
+				okRemove, okMark = false, false
+				continue
+			}
+			ret := cbs[0]
+			uf := newFuncCFG(p, info, ret.Body, key+"$unsubscribe")
+			rem, mark := false, false
+			is := func(e ast.Expr, pt Point, v types.Object) bool {
+				if objOfIdent(info, e) == v || uf.IsVar(e, pt, v) {
+					return true
+				}
+				if c := ret.Captured(p, info, e, fd.Body); c != nil && objOfIdent(info, c) == v {
+					return true
+				}
+				return false
+			}
+			for _, cl := range uf.Calls(func(*ast.CallExpr) bool { return true }) {
+				pt, okp := uf.PointOf(cl)
+				if !okp {
+					continue
+				}
+				if strings.HasSuffix(exprKey(cl.Fun), "Callbacks.Remove") && len(cl.Args) == 1 && is(cl.Args[0], pt, elem) {
+					rem = true
+				}
+				if x, ok := reactiveCalleeIs(info, cl, "MarkUnsubscribed"); ok && is(x, pt, cb) {
+					mark = true
+				}
+			}
+			okRemove, okMark = okRemove && rem, okMark && mark
+		}
+	}
+	if nRet > 0 && okRemove && okMark {
+		r.Pass("unsub/remove-own-and-mark", key, p.posStr(fd.Pos()), "unsubscribe removes the list element created by this registration and marks this callback")
+	} else {
+		r.Fail("unsub/remove-own-and-mark", key, p.posStr(fd.Pos()), fmt.Sprintf("unsubscribe must remove its own list element (%v) and mark its own callback unsubscribed (%v)", okRemove && nRet > 0, okMark && nRet > 0))
 	}
 }
